@@ -105,7 +105,7 @@ def runE (variant : String) (sh : Shape) (env : Env) : String :=
       | some r => res r
   new ++ " | old " ++ old
 
-def handle (st : St) (ws : List String) : St × String :=
+partial def handle (st : St) (ws : List String) : St × String :=
   match ws with
   | "T" :: rest =>
     match parseTable rest with
@@ -119,6 +119,10 @@ def handle (st : St) (ws : List String) : St × String :=
     match toOp st.enc rest with
     | none => (st, "bad-input")
     | some op => ({ st with ops := st.ops.push op }, "op")
+  | ["B", _, _, "0"] => (st, "skip")
+  | ["P", _, "0"] => (st, "skip")
+  | ["B", k, b, "1"] => handle st ["B", k, b]
+  | ["P", n, "1"] => handle st ["P", n]
   | ["K", k] =>
     match k.toNat?, st.table with
     | some k, some t => let st := stateAt st k; (st, verdict t st.cache)
